@@ -2325,6 +2325,13 @@ fn compile_quoted_string_ex(s: &str) -> String {
     v
 }
 
+// The including file and line of an entry of the line table
+fn included_in_of(
+    entry: &(std::rc::Rc<String>, u32, Option<(std::rc::Rc<String>, u32)>),
+) -> Option<(String, u32)> {
+    entry.2.as_ref().map(|iin| (iin.0.to_string(), iin.1))
+}
+
 pub fn compile<I: BufRead, O: Write>(
     input: I,
     output: &mut O,
@@ -2468,21 +2475,25 @@ pub fn compile<I: BufRead, O: Write>(
             let mut ex = e.clone();
             let filename;
             let line;
+            let included_in;
             ex.line_col = match e.line_col {
                 LineColLocation::Pos((l, c)) => {
                     if l - 1 < mapped_lines.len() {
                         filename = mapped_lines[l - 1].0.clone();
                         line = mapped_lines[l - 1].1;
+                        included_in = included_in_of(&mapped_lines[l - 1]);
                         LineColLocation::Pos((mapped_lines[l - 1].1 as usize, c))
                     } else if mapped_lines.is_empty() {
                         // Nothing reached the compiler (empty source)
                         filename = std::rc::Rc::new(args.input.clone());
                         line = l as u32;
+                        included_in = None;
                         LineColLocation::Pos((l, c))
                     } else {
                         let l = mapped_lines.len();
                         filename = mapped_lines[l - 1].0.clone();
                         line = mapped_lines[l - 1].1;
+                        included_in = included_in_of(&mapped_lines[l - 1]);
                         LineColLocation::Pos((mapped_lines[l - 1].1 as usize, c))
                     }
                 }
@@ -2491,6 +2502,7 @@ pub fn compile<I: BufRead, O: Write>(
                     if l1 - 1 < mapped_lines.len() {
                         filename = mapped_lines[l1 - 1].0.clone();
                         line = mapped_lines[l1 - 1].1;
+                        included_in = included_in_of(&mapped_lines[l1 - 1]);
                         LineColLocation::Span(
                             (mapped_lines[l1 - 1].1 as usize, c1),
                             (mapped_lines[l2 - 1].1 as usize, c2),
@@ -2499,11 +2511,13 @@ pub fn compile<I: BufRead, O: Write>(
                         // Nothing reached the compiler (empty source)
                         filename = std::rc::Rc::new(args.input.clone());
                         line = l1 as u32;
+                        included_in = None;
                         LineColLocation::Span((l1, c1), (l2, c2))
                     } else {
                         let l1 = mapped_lines.len();
                         filename = mapped_lines[l1 - 1].0.clone();
                         line = mapped_lines[l1 - 1].1;
+                        included_in = included_in_of(&mapped_lines[l1 - 1]);
                         LineColLocation::Span(
                             (mapped_lines[l1 - 1].1 as usize, c1),
                             (mapped_lines[l2 - 1].1 as usize, c2),
@@ -2514,7 +2528,7 @@ pub fn compile<I: BufRead, O: Write>(
             eprintln!("{}", ex);
             return Err(Error::Syntax {
                 filename: filename.to_string(),
-                included_in: None,
+                included_in,
                 line,
                 msg: e.variant.message().to_string(),
             });
